@@ -56,6 +56,9 @@ CHECKS.update({
  "C12": ("exploration","differential runtime monitor (cache on vs off on the same query history) plus scheduled stale-insert interleavings at verif yield points decided by a generation-stamp rule; stress child under the race detector",
          "(a) two real handlers over the same database, cache on/off, receive the same generated query history with heavy key reuse across clients, types, EDNS variants and letter case; every response pair must be canonically equal. (b) with generation-stamped data and the cache on, a query is parked at each point up to the cache insertion while a full/partial reload completes (or is parked after the purge) and then resumed; queries started after the reload returned must not carry an older stamp, for positive, NXDOMAIN, referral and wildcard entries.",
          "WRSTimeout 0. Equality is up to owner-name case and random address choice (max-answer >= candidates).","4/C12"),
+ "C06": ("fault_enumeration","online invariant monitor on an instrumented storage backend (open/use/close events, scripted reload faults) driven by exhaustive operation sequences up to a depth bound plus random longer ones; real backends in a child process where a crash is the verdict",
+         "An instrumented DBI is wrapped with the verif constructors into db.DB and FBDNSDB and driven by ALL sequences over {acquire, use/release oldest|newest reader, 8 scripted reload outcomes incl. validation failures on new/same backend and reloads that outlive the timeout, unblock, shutdown} up to depth 4 (thorough 5), then by random longer sequences; every history is completed and the per-instance invariants (no use after close, no close during a call, close count, pinned/served stay open, everything closed exactly once) are checked. Real CDB/RocksDB backends run random histories in a child process.",
+         "The instrumented backend models a slow same-backend reload as a call in progress on the old backend (as a RocksDB catch-up is). Depth-bounded; timing of the 1 ms reload timeout decides which branch of db.Reload a blocked reload takes.","4/C06"),
 })
 BUILT = set(CHECKS)
 ALL = [json.loads(l)["id"] for l in open("properties.jsonl")]
